@@ -5,8 +5,12 @@ NUMBA_DISABLE_JIT=1 -- and compares the two outputs.
 payload {"calls": [call, ...], "budget": seconds per call}
 call kinds
   {"k": "call", "mod": "distance3d.utils", "fn": "norm_vector", "args": [arg...]}
-       arg: float | int | bool | None | {"a": nested list}  (fresh C-contiguous float64 array)
+       arg: float | int (stays a Python int) | bool | None | {"a": nested list}  (fresh C-contiguous float64 array)
             | {"i": nested list} (int64 array) | {"b": ...} (bool array) | {"l": [arg...]} (Python list)
+            | {"ni": v} / {"ni32": v} (numpy integer scalar)
+  {"k": "distint", "case": {"fn", "args"}}   distance3d.distance call via harness/impl/c10.run_case with scalar arguments
+       passed AS GIVEN (int / numpy int), not through float()
+  "raw_scalars" on a collider call: scalar sizes of the specs reach the constructors as given (build_raw)
   {"k": "collider", "c1": spec, "c2": spec, "ops": [op...]}      ops of harness/impl/c12.py
   {"k": "mesh", "spec": mesh collider spec, "dirs": [[..]...]}    sequence of support queries on ONE
        MeshGraph (the cached start vertex is part of the observable: the index is returned)
@@ -44,8 +48,12 @@ def to_arg(a):
             return np.ascontiguousarray(np.array(a["b"], dtype=bool))
         if "l" in a:
             return [to_arg(x) for x in a["l"]]
+        if "ni" in a:                       # numpy integer scalar (a size taken out of an integer array)
+            return np.int64(a["ni"])
+        if "ni32" in a:
+            return np.int32(a["ni32"])
         raise ValueError(a)
-    return a
+    return a                                # float | Python int (stays an int) | bool | None
 
 
 def ser(x, depth=0):
@@ -95,9 +103,41 @@ def run_call(c):
     return out
 
 
+def build_raw(spec, np_scalars):
+    """like harness/impl/narrow.build, but scalar sizes reach the constructor AS GIVEN: a Python int stays a Python int
+    (or becomes a numpy int64 scalar with np_scalars), nothing is passed through float().  Arrays are float64."""
+    from distance3d import colliders as C
+
+    def raw(x):
+        if isinstance(x, int) and not isinstance(x, bool):
+            return np.int64(x) if np_scalars else x
+        return x
+    arr = lambda v: np.array(v, dtype=float)
+    k = spec["kind"]
+    if k == "sphere":
+        c = C.Sphere(arr(spec["center"]), raw(spec["radius"]))
+    elif k == "capsule":
+        c = C.Capsule(arr(spec["pose"]), raw(spec["radius"]), raw(spec["height"]))
+    elif k == "cylinder":
+        c = C.Cylinder(arr(spec["pose"]), raw(spec["radius"]), raw(spec["length"]))
+    elif k == "cone":
+        c = C.Cone(arr(spec["pose"]), raw(spec["radius"]), raw(spec["height"]))
+    elif k == "disk":
+        c = C.Disk(arr(spec["center"]), raw(spec["radius"]), arr(spec["normal"]))
+    else:
+        return W12.NW.build(spec)
+    if "margin" in spec:
+        c = C.Margin(c, raw(spec["margin"]))
+    return c
+
+
 def run_collider(c):
-    c1 = W12.NW.build(c["c1"])
-    c2 = c1 if c.get("same_object") else W12.NW.build(c["c2"])
+    if c.get("raw_scalars"):
+        c1 = build_raw(c["c1"], bool(c.get("np_scalars")))
+        c2 = c1 if c.get("same_object") else build_raw(c["c2"], bool(c.get("np_scalars")))
+    else:
+        c1 = W12.NW.build(c["c1"])
+        c2 = c1 if c.get("same_object") else W12.NW.build(c["c2"])
     res = []
     for op in c["ops"]:
         r = W12.run_op(op, c1, c2)
@@ -184,7 +224,28 @@ def run_worker(c):
     return {"ok": {"json": strip(mod.run_case(c["case"]))}}
 
 
-KINDS = dict(call=run_call, collider=run_collider, mesh=run_mesh, emptytree=run_emptytree, worker=run_worker, treeapi=run_treeapi)
+def run_distint(c):
+    """a distance3d.distance call through harness/impl/c10.run_case (same result record as the "distance" family), except
+    that scalar arguments are NOT passed through float(): JSON ints stay Python ints, {"ni": v} becomes numpy.int64(v)"""
+    from harness.impl import c10 as W10
+    orig = W10.to_arg
+
+    def keep_scalars(a):
+        if isinstance(a, dict):
+            return to_arg(a)
+        if isinstance(a, int) and not isinstance(a, bool):
+            return a
+        return orig(a)
+    W10.to_arg = keep_scalars
+    try:
+        r = W10.run_case(c["case"])
+    finally:
+        W10.to_arg = orig
+    return {"ok": {"json": strip(r)}}
+
+
+KINDS = dict(call=run_call, collider=run_collider, mesh=run_mesh, emptytree=run_emptytree, worker=run_worker, treeapi=run_treeapi,
+             distint=run_distint)
 
 
 def run_aabbtree(c):
